@@ -1,4 +1,5 @@
 import PqlModel.Props.C01
+import PqlModel.Props.C01LexRender
 #print axioms Pql.C01.C01_parens_write
 #print axioms Pql.C01.C01_parens_wrap
 #print axioms Pql.C01.C01_unparen_write
@@ -9,3 +10,10 @@ import PqlModel.Props.C01
 #print axioms Pql.C01.C01_needsWrap_index
 #print axioms Pql.C01.C01_tight_signed
 #print axioms Pql.C01.C01_binary_ops
+#print axioms Pql.C01.C01_lexRender
+#print axioms Pql.C01.C01_lexRender_before
+#print axioms Pql.C01.writeExpr_adj
+#print axioms Pql.C01.writeExpr_adj_before
+#print axioms Pql.C01.writeExpr_no_leading_minus
+#print axioms Pql.LexRender.lexRender_of_adj
+#print axioms Pql.LexRender.lexRender_of_adj_top
